@@ -9,7 +9,8 @@ RULE = ('cases: the C01 construction (molecule model x partition x rendering) in
         'bonds is replaced by SHARING: the home atom v of fragment G is copied into the neighbouring fragment F '
         'with all of v\'s bonds into F and both copies get [!x]; the base edge counts one unit per shared pair. '
         'Several shared atoms per fragment, one atom shared by 3-4 fragments, chains of shared atoms, shared '
-        'aromatic ring atoms, shared charged atoms, shared atoms that also carry ordinary descriptors. Oracle: the '
+        'aromatic ring atoms, shared charged atoms, shared atoms that also carry ordinary descriptors; 8 %: one hub '
+        'carbon held by 3-4 fragments whose [!x] pairs form a random tree, base graph written from a random root. Oracle: the '
         'fine graph is isomorphic to the model (= the disjoint description of the same partition, which is '
         'resolved as a metamorphic twin), the number of heavy atoms equals the number of fragment atoms minus the '
         'number of shared pairs, each merged atom lists both coarse nodes in fragid and appears in both coarse '
@@ -24,7 +25,66 @@ def budget(tier):
     return dict(examples=700, shards=4, procs=4)
 
 
+CHAINS = [['O'], ['N'], ['C', 'C'], ['F'], ['Cl'], ['C', 'O'], ['S'], ['C', 'N']]
+
+
+def gen_hub(R, tier):
+    """one sp3 carbon shared by 3 or 4 fragments: every fragment holds a copy of the hub atom plus its own
+    substituent; the [!x] pairs form a random TREE over the fragments (star, path, ...), the base graph is that
+    tree written from a random root (so the squash pairs are met in any order)"""
+    import networkx as nx
+    k = R.choice([3, 4, 4])
+    chains = [R.choice(CHAINS) for _ in range(k)]
+    m = molgen.Mol()
+    hub = m.add_atom('C')
+    for ch in chains:
+        prev = hub
+        for e in ch:
+            a = m.add_atom(e)
+            m.add_bond(prev, a, 1)
+            prev = a
+    tree = nx.Graph()
+    tree.add_node(0)
+    order = list(range(1, k))
+    R.shuffle(order)
+    for f in order:
+        tree.add_edge(f, R.choice(sorted(tree.nodes)), order=1)
+    labels = molgen.label_stream()
+    descs = {f: [] for f in range(k)}
+    for a, b in tree.edges:
+        lab = next(labels)
+        descs[a].append('[!%s]' % lab)
+        descs[b].append('[!%s]' % lab)
+    hubtok = '[C]' if k == 4 else '[CH]'
+    frs = []
+    for f in range(k):
+        ds = list(descs[f])
+        R.shuffle(ds)
+        body = ''.join(chains[f])
+        if R.chance(0.5):
+            txt = hubtok + ''.join(ds) + body
+        elif R.chance(0.5):
+            txt = ''.join(reversed([body[i:i + 2] if body[i:i + 2] == 'Cl' else body[i] for i in range(len(body)) if not (i and body[i - 1:i + 1] == 'Cl')])) + hubtok + ''.join(ds)
+        else:
+            txt = ''.join(ds[:1]) + hubtok + ''.join(ds[1:]) + body
+        frs.append('#F%d=%s' % (f, txt))
+    R.shuffle(frs)
+    names = ['F%d' % f for f in range(k)]
+    s = molgen.write_base(R, tree, names) + '.{' + ','.join(frs) + '}'
+    keys = list(range(k))
+    R.shuffle(keys)
+    gnodes = [[keys[f], names[f]] for f in range(k)]
+    R.shuffle(gnodes)
+    gedges = [[keys[a], keys[b]] if R.chance(0.5) else [keys[b], keys[a]] for a, b in tree.edges]
+    R.shuffle(gedges)
+    shape = 'star' if max(dict(tree.degree).values()) == k - 1 else 'path' if max(dict(tree.degree).values()) == 2 else 'other'
+    return dict(input=s, twin=None, model=m.to_json(), nshared=k - 1, natoms=len(m.atoms) + k - 1, nfr=k, hub=True,
+                frag_block='{' + ','.join(frs) + '}', base_nodes=gnodes, base_edges=gedges, legacy_false_ok=False, features=sorted({'hub_atom_shared_by_%d' % k, 'sharing_tree:' + shape, 'atom_shared_by_3+'}))
+
+
 def gen(R, tier):
+    if R.chance(0.08):
+        return gen_hub(R, tier)
     if R.chance(0.2):
         # sharing on two or more levels handled by one resolver
         from .. import resgen
@@ -87,8 +147,23 @@ def oracle(case):
         if case.get('input_li') and case['input_li'] != case['input']:
             _, fine4 = sut(resolve, case['input_li'], legacy=False)
             check_molecule(fine4, model_g, 'label-insensitive convention, labels rewritten (%s)' % case['input_li'])
-    _, fine2 = sut(resolve, case['twin'])
-    check_molecule(fine2, model_g, 'disjoint description')
+    if case.get('hub'):
+        # the same tree handed over as a graph: node keys permuted, nodes and edges inserted in random order
+        import networkx as nx
+        from cgsmiles import MoleculeResolver
+        meta = nx.Graph()
+        for n, nm in case['base_nodes']:
+            meta.add_node(n, fragname=nm)
+        for a, b in case['base_edges']:
+            meta.add_edge(a, b, order=1)
+        _, fineg = sut(lambda: MoleculeResolver.from_graph(case['frag_block'], meta).resolve_all())
+        hgg = check_molecule(fineg, model_g, 'from_graph, nodes %r edges %r' % (case['base_nodes'], case['base_edges']))
+        hubs = [n for n, d in fineg.nodes(data=True) if len(d.get('fragid', [])) > 1 and d.get('element') != 'H']
+        expect(len(hubs) == 1 and sorted(fineg.nodes[hubs[0]]['fragid']) == sorted(meta.nodes), 'squash:membership',
+               lambda: 'from_graph: merged atoms %r' % [(n, fineg.nodes[n]['fragid']) for n in hubs])
+    if case.get('twin'):
+        _, fine2 = sut(resolve, case['twin'])
+        check_molecule(fine2, model_g, 'disjoint description')
     merged = [n for n, d in fine.nodes(data=True) if len(d.get('fragid', [])) > 1 and d.get('element') != 'H']
     total_extra = sum(len(fine.nodes[n]['fragid']) - 1 for n in merged)
     expect(total_extra == case['nshared'], 'squash:membership',
